@@ -194,6 +194,14 @@ fn run_case(cx: &CaseCtx, rep: &mut Report) {
 		pmtiles_root_boundary_walk(cx, rep, &mut rng);
 		return;
 	}
+	if cx.case == 28 {
+		empty_tile_set(cx, rep, &mut rng);
+		return;
+	}
+	if cx.tier == Tier::Thorough && (25..=27).contains(&cx.case) {
+		beyond_4gib(cx, rep, ["tar", "versatiles", "pmtiles"][(cx.case - 25) as usize]);
+		return;
+	}
 	if (22..=24).contains(&cx.case) || (cx.tier == Tier::Thorough && cx.case % 100 == 99) {
 		siblings(cx, rep, &mut rng);
 		return;
@@ -277,12 +285,38 @@ fn run_case(cx: &CaseCtx, rep: &mut Report) {
 	}
 	// the target may already exist: an older, larger version of the same tile set (same names, longer files) is
 	// written first; nothing of it may shine through afterwards
-	let refreshed = !big && !(13..=21).contains(&cx.case) && ts.tiles.len() <= 1500 && rng.chance(0.35);
+	let refreshed = !big && !(13..=21).contains(&cx.case) && ts.tiles.len() <= 1500 && rng.chance(0.45);
+	// 0: every tile longer; 1: every tile of the same length with other content (fixed-size raster tiles whose
+	// values changed); 2: longer, and the older export was larger: it has tiles the new one does not have
+	let refresh_kind = if refreshed { (cx.case / 5) % 3 } else { 0 };
 	if refreshed {
 		let mut old = ts.clone();
 		for v in old.tiles.values_mut() {
+			if refresh_kind == 1 {
+				for b in v.iter_mut() {
+					*b = b.wrapping_add(1);
+				}
+				continue;
+			}
 			v.extend_from_slice(b" -- stale bytes of an older, longer version of this tile -- ");
 			v.extend(std::iter::repeat(b'#').take(200));
+		}
+		if refresh_kind == 2 {
+			let extra: Vec<crate::gen::Key> = ts.bounds().iter().flat_map(|(z, b)| {
+				let m = ((1u64 << z) - 1) as u32;
+				let mut v = vec![];
+				if b.2 < m {
+					v.push((*z, b.2 + 1, b.1));
+				}
+				if b.3 < m {
+					v.push((*z, b.0, b.3 + 1));
+				}
+				v
+			}).take(6).collect();
+			for k in extra {
+				old.tiles.insert(k, b"tile of an older, larger export that the new one does not have".to_vec());
+			}
+			rep.count(&format!("targets_refreshed_over_a_larger_export_{target}"), 1);
 		}
 		if old.tilejson.ends_with('}') {
 			old.tilejson = format!("{},\"description\":\"{}\"}}", &old.tilejson[..old.tilejson.len() - 1], "older and longer ".repeat(20));
@@ -306,9 +340,9 @@ fn run_case(cx: &CaseCtx, rep: &mut Report) {
 	src.default_stream = !big && rng.chance(0.3);
 	let via_blob = (target == "versatiles" || target == "pmtiles") && rng.chance(0.4);
 
-	let class = format!("{target}");
+	let class = if refreshed && refresh_kind == 2 { format!("{target}|over-a-larger-older-export") } else { format!("{target}") };
 	let nontrivial = ts.tiles.len() >= 3 && (ts.crosses_block_grid() || ts.fill_ratio() < 0.5 || ts.has_duplicates() || ts.has_zoom_gap() || ts.tiles.len() > 16384 || ts.levels().iter().any(|z| *z >= 30));
-	let witness = |extra: serde_json::Value| json!({"target": target, "tileset": ts.describe(), "widened_coverage": widened, "via_blob_writer": via_blob, "target_existed_before": refreshed, "detail": extra});
+	let witness = |extra: serde_json::Value| json!({"target": target, "tileset": ts.describe(), "widened_coverage": widened, "via_blob_writer": via_blob, "target_existed_before": refreshed, "existing_target_kind": refresh_kind, "detail": extra});
 
 	// ---- write
 	let mut blob_bytes: Option<Vec<u8>> = None;
@@ -510,5 +544,191 @@ fn siblings(cx: &CaseCtx, rep: &mut Report, rng: &mut Rng) {
 	let mut left: Vec<String> = std::fs::read_dir(&dir).map(|it| it.flatten().map(|e| e.file_name().to_string_lossy().to_string()).collect()).unwrap_or_default();
 	left.retain(|n| !targets.iter().any(|t| n == &format!("c.{t}")));
 	rep.label("sibling_leftovers", &format!("{left:?}"));
+	let _ = std::fs::remove_dir_all(&dir);
+}
+
+// ---- containers beyond 4 GiB (thorough tier) -------------------------------------------------
+
+/// a source that makes its tiles when asked (nothing of the 4.4 GiB is kept in memory by the harness)
+#[derive(Debug)]
+struct GenSource {
+	params: TilesReaderParameters,
+	tilejson: versatiles_core::tilejson::TileJSON,
+	keys: std::collections::BTreeMap<crate::gen::Key, usize>,
+}
+
+fn big_fill(k: &crate::gen::Key, size: usize) -> Vec<u8> {
+	let mut v = format!("T:{}/{}/{};", k.0, k.1, k.2).into_bytes();
+	let mut n: u64 = (k.1 as u64) << 40 | (k.2 as u64) << 20 | size as u64;
+	v.reserve(size + 8);
+	while v.len() < size {
+		v.extend_from_slice(&n.to_le_bytes());
+		n = n.wrapping_mul(6364136223846793005).wrapping_add(1442695040888963407);
+	}
+	v.truncate(size.max(12));
+	v
+}
+
+#[async_trait::async_trait]
+impl TilesReaderTrait for GenSource {
+	fn get_source_name(&self) -> &str {
+		"generated"
+	}
+	fn get_container_name(&self) -> &str {
+		"mem"
+	}
+	fn get_parameters(&self) -> &TilesReaderParameters {
+		&self.params
+	}
+	fn override_compression(&mut self, c: TileCompression) {
+		self.params.tile_compression = c;
+	}
+	fn get_tilejson(&self) -> &versatiles_core::tilejson::TileJSON {
+		&self.tilejson
+	}
+	async fn get_tile_data(&self, coord: &TileCoord3) -> anyhow::Result<Option<Blob>> {
+		Ok(self.keys.get(&crate::gen::key_of(coord)).map(|size| Blob::from(big_fill(&crate::gen::key_of(coord), *size))))
+	}
+}
+
+/// 70 tiles of 64 MiB with small tiles between them: the second half of the file lies beyond byte 2^32. Every
+/// tile has to come back from the written file — positions and lengths are 64-bit quantities in all formats.
+fn beyond_4gib(cx: &CaseCtx, rep: &mut Report, target: &str) {
+	let dir = cx.fresh_dir("c01big");
+	let path = container_path(&dir, target);
+	let z = 12u8;
+	let (x0, y0) = (600u32, 900u32);
+	let mut keys = std::collections::BTreeMap::new();
+	for i in 0..70u32 {
+		keys.insert((z, x0 + i % 8, y0 + 2 * (i / 8)), 64usize << 20);
+		keys.insert((z, x0 + i % 8, y0 + 2 * (i / 8) + 1), 100 + i as usize);
+	}
+	let mut pyramid = TileBBoxPyramid::new_empty();
+	for k in keys.keys() {
+		pyramid.include_coord(&crate::gen::coord_of(k));
+	}
+	let params = TilesReaderParameters::new(TileFormat::BIN, TileCompression::Uncompressed, pyramid);
+	let mut src = GenSource { params, tilejson: Default::default(), keys: keys.clone() };
+	cx.progress(&format!("{target}: 4.4 GiB container"));
+	let witness = |extra: serde_json::Value| json!({"target": target, "scenario": "70 tiles of 64 MiB and 70 small ones: a container of 4.4 GiB", "detail": extra});
+	rep.eval();
+	match guard::catch(|| guard::block_on(write_to_filename(&mut src, path.to_str().unwrap()))) {
+		Err(p) => {
+			rep.violation(&p.signature(&format!("write-big-{target}")), "writing a container beyond 4 GiB panicked", witness(json!({"panic": p.describe()})));
+			let _ = std::fs::remove_dir_all(&dir);
+			return;
+		}
+		Ok(Err(e)) => {
+			let msg = format!("{e:#}");
+			let _ = std::fs::remove_dir_all(&dir);
+			if msg.contains("No space left") {
+				rep.inconclusive("no space for a 4.4 GiB container");
+			} else {
+				rep.violation(&format!("{target}|big|write-failed"), "writing a container beyond 4 GiB failed", witness(json!({"error": msg})));
+			}
+			return;
+		}
+		Ok(Ok(())) => {}
+	}
+	let len = std::fs::metadata(&path).map(|m| m.len()).unwrap_or(0);
+	rep.count(&format!("containers_beyond_4gib_{target}"), (len > (1u64 << 32)) as u64);
+	let checked = guard::catch(|| {
+		guard::block_on(async {
+			let reader = get_reader(path.to_str().unwrap()).await.map_err(|e| format!("open: {e:#}"))?;
+			let mut bad: Vec<String> = vec![];
+			let mut n = 0u64;
+			for (k, size) in &keys {
+				let got = reader.get_tile_data(&crate::gen::coord_of(k)).await;
+				n += 1;
+				match got {
+					Ok(Some(b)) if b.as_slice() == big_fill(k, *size).as_slice() => {}
+					Ok(Some(b)) => bad.push(format!("{}/{}/{}: {} bytes, other content (expected {} bytes)", k.0, k.1, k.2, b.len(), (*size).max(12))),
+					Ok(None) => bad.push(format!("{}/{}/{}: missing", k.0, k.1, k.2)),
+					Err(e) => bad.push(format!("{}/{}/{}: {e:#}", k.0, k.1, k.2)),
+				}
+				if bad.len() > 5 {
+					break;
+				}
+			}
+			// and the small tiles of the last rows through a stream
+			let bbox = TileBBox::new(z, x0, y0 + 15, x0 + 7, y0 + 17).unwrap();
+			let items = reader.get_bbox_tile_stream(bbox).await.collect().await;
+			for (c, b) in items {
+				let k = crate::gen::key_of(&c);
+				n += 1;
+				match keys.get(&k) {
+					Some(size) if b.as_slice() == big_fill(&k, *size).as_slice() => {}
+					_ => bad.push(format!("stream {}/{}/{}: {} bytes, other content", k.0, k.1, k.2, b.len())),
+				}
+			}
+			Ok::<(u64, Vec<String>), String>((n, bad))
+		})
+	});
+	match checked {
+		Err(p) => rep.violation(&p.signature(&format!("read-big-{target}")), "reading a container beyond 4 GiB panicked", witness(json!({"panic": p.describe()}))),
+		Ok(Err(e)) => rep.violation(&format!("{target}|big|open-failed"), "a container beyond 4 GiB cannot be opened", witness(json!({"error": e, "file_len": len}))),
+		Ok(Ok((n, bad))) => {
+			rep.evals(n);
+			rep.count("tiles_checked_in_containers_beyond_4gib", n);
+			if !bad.is_empty() {
+				rep.violation(&format!("{target}|big|tile-differs"), "a tile of a container beyond 4 GiB does not come back as written", witness(json!({"file_len": len, "first_problems": bad})));
+			} else if len > (1u64 << 32) {
+				rep.nontrivial(crate::rng::fnv(format!("big{target}").as_bytes()));
+			}
+		}
+	}
+	let _ = std::fs::remove_dir_all(&dir);
+}
+
+/// The empty tile set (a selection that keeps nothing, a source without tiles) is a finite tile set too: every
+/// target is written from it. A writer may refuse it with an error; it may not panic, and what it writes
+/// successfully has to open and hold no tile.
+fn empty_tile_set(cx: &CaseCtx, rep: &mut Report, rng: &mut Rng) {
+	let dir = cx.fresh_dir("c01e");
+	for target in TARGETS {
+		let (format, comp) = *rng.pick(&pairs_for(target));
+		let ts = TileSet { format, comp, tiles: Default::default(), tilejson: gen::gen_tilejson(rng, format), shape: "no tiles".into(), really_compressed: false };
+		let sub = dir.join(target);
+		let _ = std::fs::create_dir_all(&sub);
+		let path = container_path(&sub, target);
+		if target == "directory" {
+			let _ = std::fs::create_dir_all(&path);
+		}
+		let mut src = MemSource::new(&ts);
+		rep.eval();
+		rep.count("empty_tile_sets_written", 1);
+		let witness = |extra: serde_json::Value| json!({"target": target, "tileset": "no tiles", "tile_format": format!("{format:?}"), "compression": comp.name(), "detail": extra});
+		match guard::catch(|| guard::block_on(write_to_filename(&mut src, path.to_str().unwrap()))) {
+			Err(p) => {
+				rep.violation(&p.signature(&format!("write-empty-{target}")), "writing the empty tile set panicked", witness(json!({"panic": p.describe()})));
+				continue;
+			}
+			Ok(Err(_)) => {
+				rep.count("empty_tile_sets_refused_with_an_error", 1);
+				continue;
+			}
+			Ok(Ok(())) => {}
+		}
+		match guard::catch(|| guard::block_on(async {
+			let r = get_reader(path.to_str().unwrap()).await?;
+			let mut n = 0;
+			for z in 0..4u8 {
+				n += r.get_bbox_tile_stream(TileBBox::new_full(z)?).await.collect().await.len();
+			}
+			anyhow::Ok((n, r.get_parameters().bbox_pyramid.count_tiles()))
+		})) {
+			Err(p) => rep.violation(&p.signature(&format!("open-empty-{target}")), "opening a container written from the empty tile set panicked", witness(json!({"panic": p.describe()}))),
+			Ok(Err(e)) => {
+				// (tar / directory / mbtiles carry their tile format in the tiles themselves: without tiles there is nothing to open)
+				rep.count("empty_containers_that_do_not_open", 1);
+				rep.note(&format!("empty {target} container does not open: {e:#}"));
+			}
+			Ok(Ok((n, covered))) => {
+				if n > 0 || covered > 0 {
+					rep.violation(&format!("{target}|empty|tiles-from-nowhere"), "a container written from the empty tile set returns or advertises tiles", witness(json!({"streamed": n, "advertised": covered})));
+				}
+			}
+		}
+	}
 	let _ = std::fs::remove_dir_all(&dir);
 }
